@@ -617,4 +617,25 @@ theorem zip_run_head (c : TCfg) (m : Msg) (ms : List Msg) :
   simp only [TW.runFrom, List.zip_cons_cons, List.getElem?_cons_zero]
   rfl
 
+/-- the invariant holds after every non-decreasing history -/
+theorem tinv_after (c : TCfg) (m0 : Msg) (ms : List Msg) (hp : 0 < c.period) (he : 0 ≤ c.every)
+    (hmono : nondecreasing ((m0 :: ms).map Msg.t) = true) :
+    TInv c m0.t (TW.traceFrom (TW.init c m0.t) (m0 :: ms)) (TW.after (TW.init c m0.t) (m0 :: ms)) := by
+  have hinit := tinv_init c m0.t hp he
+  have hm : nondecreasing (lastT m0.t [] :: (m0 :: ms).map Msg.t) = true := by
+    simp only [lastT, List.getLast?_nil, Option.map_none, Option.getD_none, List.map_cons, nondecreasing,
+      Bool.and_eq_true, decide_eq_true_eq]
+    exact ⟨Int.le_refl _, by simpa [nondecreasing] using hmono⟩
+  have := (run_inv c m0.t hp he (m0 :: ms) [] _ hinit hm).1
+  simpa using this
+
+theorem histOf_traceFrom (w : TW) (ms : List Msg) : histOf (TW.traceFrom w ms) = received ms := by
+  unfold histOf TW.traceFrom
+  congr 1
+  have : ∀ (w : TW) (l : List Msg), (TW.runFrom Buf.insert w l).length = l.length := by
+    intro w l; induction l generalizing w with
+    | nil => rfl
+    | cons a l ih => simp [TW.runFrom, ih]
+  rw [List.map_fst_zip (by rw [this]; exact Nat.le_refl _)]
+
 end Kap.C03
